@@ -185,7 +185,8 @@ def run(case: dict, *, count_only: bool = False) -> Obs:
     user_disc = [False]
 
     async def on_stop(expected: bool) -> None:
-        env.log("on_stop", arg=expected, conn=_last_closed_conn(env))
+        env.log("on_stop", arg=expected, conn=_last_closed_conn(env),
+                seen=[(i, c.connection_state.name, bool(c.is_connected)) for i, c in enumerate(env.conns)])
 
     def on_state(state: Any) -> None:
         env.log("cb", what=type(state).__name__)
@@ -488,6 +489,12 @@ def oracle_c05(obs: Obs) -> list[Violation]:
     cur: dict[int, str] = {}
     for e in obs.trace:
         k = e["kind"]
+        if k == "on_stop":
+            # the stop callback is the notification that the session is over: the connection it belongs to must
+            # already be in the closed state and must not report 'connected' any more
+            for cid, st_name, isc in e.get("seen") or []:
+                if isc or st_name == "CONNECTED":
+                    v.append(Violation("C05", f"c05:reports-connected-in-stop-callback:{st_name}", f"conn{cid} is {st_name} / is_connected={isc} while its stop callback runs (seq {e['seq']})"))
         if k == "conn_new":
             cur[e["conn"]] = "INITIALIZED"
         elif k == "state":
@@ -536,6 +543,12 @@ def oracle_c07(obs: Obs) -> list[Violation]:
             if early is None:
                 if got:
                     v.append(Violation("C07", "c07:on_stop-while-open", f"conn{cid}"))
+                # a local disconnect()/force disconnect on this established session ran to its end (returned or
+                # raised): the session must have been ended and reported
+                fin = [e for e in obs.trace if e["kind"] == "op_end" and e["op"].startswith(("force", "disconnect", "final"))]
+                asked = [e for e in obs.trace if e["kind"] == "user_call" and e.get("conn") == cid and e["seq"] > connected_seq]
+                if asked and fin and any(f["seq"] > asked[0]["seq"] for f in fin) and not got:
+                    v.append(Violation("C07", "c07:on_stop-count:0", f"conn{cid} was established and a local {asked[0]['what']} call on it has completed, yet the session was never closed/reported (on_stop called 0 times)"))
                 continue
             closed_seq = early
         if len(got) != 1:
